@@ -94,8 +94,13 @@ CallOf(p) ==
        scores |-> IF OutcomeStyle = "dense" THEN PNone ELSE o.scores,
        tau |-> CallTau(SettingSeq[si]), limit |-> CallLimit(SettingSeq[si])]
 
-MCInit == Init /\ pend \in Pending
-MCNext == Rate(CallOf(pend)) /\ UNCHANGED pend
+\* predictions over the same games (OutcomeStyle = "predict"): the outcome component carries the operation
+PredPending == UNION {UNION {{<<ki, 1, n, f, op>> : f \in Assignments(n), op \in {"win", "draw", "rank"}}
+                 : n \in 2..MaxTeams} : ki \in {k \in 1..5 : KindSeq[k] \in KindSet}}
+PredCallOf(p) == [m |-> Mid(p[1], p[2]), op |-> p[5], teams |-> GamePV(p[4], p[3], (p[1] - 1) * CastSize)]
+
+MCInit == Init /\ pend \in (IF OutcomeStyle = "predict" THEN PredPending ELSE Pending)
+MCNext == (IF OutcomeStyle = "predict" THEN Predict(PredCallOf(pend)) ELSE Rate(CallOf(pend))) /\ UNCHANGED pend
 MCSpec == MCInit /\ [][MCNext]_<<vars, pend>>
 
 NoCalls(ms, h) == {}
